@@ -88,6 +88,7 @@ type Sess struct {
 	names []string
 	inumSeen map[uint64]int
 	stop  bool
+	queue []*Op // scripted bursts (run before anything else is generated)
 	steerFollow []byte // file whose last WRITE failed for lack of space
 }
 
@@ -785,7 +786,17 @@ func runSeq(p Profile, seed uint64, cas int) *SeqRes {
 	}
 	for i := 0; i < p.NOps && !s.stop; i++ {
 		var op *Op
-		if p.NearFull && (p.AfterFail || p.TwinEvery > 0 || p.FsckEvery > 0) && rng.Intn(5) < 2 {
+		if len(s.queue) > 0 {
+			op = s.queue[0]
+			s.queue = s.queue[1:]
+			if s.m.Obj(op.H) == nil {
+				op = nil // its file is gone
+			}
+		}
+		if op != nil {
+		} else if p.Recycle && rng.Intn(25) == 0 {
+			op = s.sparseBurst()
+		} else if p.NearFull && (p.AfterFail || p.TwinEvery > 0 || p.FsckEvery > 0) && rng.Intn(5) < 2 {
 			op = s.genSteer()
 		} else if p.Recycle && rng.Intn(3) == 0 {
 			op = s.genRecycle()
@@ -849,14 +860,26 @@ func (s *Sess) prepopulate(n int) {
 		} else if i%11 == 5 {
 			k = OpSymlink
 		}
-		rr := s.exec(&Op{K: k, H: bigfh, Name: fmt.Sprintf("o%03d", i), Target: "tgt"})
+		name := fmt.Sprintf("o%03d", i)
+		if i%3 == 1 {
+			// names longer than 96 bytes (more reply bytes than directory bytes per entry)
+			name += longName(s.m.Lim.NameMax-4-(i%9), 'L')
+		}
+		rr := s.exec(&Op{K: k, H: bigfh, Name: name, Target: "tgt"})
 		if rr.Stat == stOK && k == OpCreate && i%3 == 0 {
 			s.nextUid++
 			s.exec(&Op{K: OpWrite, H: rr.FH, Off: uint64(i%5) * 1000, Count: 3000, DataLen: 3000, Uid: s.nextUid, Stable: 2})
 		}
 	}
+	// a directory whose names are all longer than 96 bytes (its listing needs
+	// more reply bytes than the directory has bytes)
+	if lr := s.exec(&Op{K: OpMkdir, H: s.srv.Root, Name: "longs"}); lr.Stat == stOK {
+		for i := 0; i < 40; i++ {
+			s.exec(&Op{K: OpCreate, H: lr.FH, Name: fmt.Sprintf("%03d", i) + longName(s.m.Lim.NameMax-3, 'N')})
+		}
+	}
 	// punch free slots into the big directory
-	for i := 0; i < n; i += 5 {
+	for i := 0; i < n; i += 15 {
 		s.exec(&Op{K: OpRemove, H: bigfh, Name: fmt.Sprintf("o%03d", i)})
 	}
 }
@@ -1174,7 +1197,11 @@ func (s *Sess) genSteer() *Op {
 		}
 		return c[r.Intn(len(c))]
 	}
-	switch r.Intn(9) {
+	pick := r.Intn(9)
+	if free == 1 && r.Intn(2) == 0 {
+		pick = 7 // exactly one free block: index block goes in, data block does not
+	}
+	switch pick {
 	case 7, 8: // READ of a hole beyond the direct blocks: index block(s) + data block
 		if o := holey(); o != nil {
 			off := 8*BlockSize + r.U64()%(o.Size-8*BlockSize)
@@ -1234,4 +1261,35 @@ func (s *Sess) exhaustInodes() {
 	for i := 0; i < n; i += n/40 + 1 {
 		s.exec(&Op{K: OpRemove, H: dfh, Name: fmt.Sprintf("i%05d", i)})
 	}
+}
+
+// sparseBurst queues a short script on one file: data up to an index-range
+// border, growth by SETATTR over the border (the index range stays a hole),
+// truncation below the border, growth again, and a read of the region.
+func (s *Sess) sparseBurst() *Op {
+	o := s.pickObj(KReg)
+	if o == nil {
+		return s.genOp()
+	}
+	r := s.rng
+	b := uint64(BlockSize)
+	border := uint64(8) // first block of the indirect range
+	if r.Intn(3) == 0 && s.p.DiskBlocks >= 8000 {
+		border = 8 + 512 // first block of the double-indirect range (reading the hole below it takes ~520 blocks)
+	}
+	nb := uint64(1 + r.Intn(8))
+	s.nextUid++
+	first := &Op{K: OpWrite, H: o.FH, Off: (border - nb) * b, Count: uint32(nb * b), DataLen: uint32(nb * b), Uid: s.nextUid, Stable: r.Intn(3)}
+	small := (border - nb) * b
+	if small > 0 {
+		small = r.U64() % (border * b)
+	}
+	s.queue = append(s.queue,
+		&Op{K: OpSetattr, H: o.FH, SetSize: true, Size: (border + uint64(1+r.Intn(40))) * b},
+		&Op{K: OpSetattr, H: o.FH, SetSize: true, Size: small},
+		&Op{K: OpSetattr, H: o.FH, SetSize: true, Size: (border+2)*b + uint64(r.Intn(5000))},
+		&Op{K: OpRead, H: o.FH, Off: (border - 2) * b, Count: 5 * BlockSize},
+		&Op{K: OpRead, H: o.FH, Off: 0, Count: 65536},
+	)
+	return first
 }
